@@ -10,6 +10,7 @@ CONSTANTS
 INVARIANT DenoteOK
 INVARIANT WellFormedOK
 INVARIANT ReadersAgree
+INVARIANT RoundTripOK
 PROPERTY RefusedIsNoop
 PROPERTY BufferAppendOnly
 CHECK_DEADLOCK FALSE
